@@ -452,6 +452,56 @@ impl C16 {
                 }
             }
         }
+        // metamorphic: entries the template does not declare change nothing - the same request with 30..45 more
+        // undeclared entries (spread over args and env), and with one declared parameter present in *both* maps,
+        // must be accepted / refused alike and hand over the same map
+        if doc.get("args").map(|a| a.is_object()).unwrap_or(false) && doc["tir"].is_object() && idx % 3 == 0 {
+            let mut base = doc.clone();
+            if let Some((name, _)) = expected.first() {
+                if rng.bool() && args.contains_key(name) {
+                    // the declared parameter also under env, with another well-formed value of its type
+                    if let Some(ty @ (Type::Int | Type::Bool | Type::Bytes | Type::Address | Type::UtxoRef)) = declared.iter().find(|(d, _)| d == name).map(|(_, t)| t.clone()) {
+                        let (j2, _, _) = encode(&ty, rng);
+                        if !base["env"].is_object() {
+                            base["env"] = json!({});
+                        }
+                        base["env"][name.as_str()] = j2;
+                        ctx.count("requests/metamorphic-key-in-both-maps");
+                    }
+                }
+            }
+            let mut padded = base.clone();
+            if !padded["env"].is_object() {
+                padded["env"] = json!({});
+            }
+            let n_junk = 30 + rng.usize(16);
+            for k in 0..n_junk {
+                // keys that sort before, between and after the real ones
+                let key = format!("{}_junk_{k}", *rng.pick(&["a", "m", "q", "zz", "0"]));
+                let target = if rng.bool() { "args" } else { "env" };
+                padded[target][key.as_str()] = random_json(rng, 3);
+            }
+            let run = |d: &Value| {
+                crate::panics::catch(|| {
+                    let params: ResolveParams = serde_json::from_value(d.clone()).map_err(|e| format!("deserialize: {e}"))?;
+                    parse_resolve_request(params).map(|(_, m)| m).map_err(|e| format!("parse: {e}"))
+                })
+            };
+            ctx.eval();
+            ctx.count("requests/metamorphic-padded");
+            match (run(&base), run(&padded)) {
+                (Ok(Ok(a)), Ok(Ok(b))) => {
+                    let same = a.len() == b.len() && a.iter().all(|(k, v)| b.get(k).map(|w| arg_eq(v, w)).unwrap_or(false));
+                    if !same {
+                        ctx.violation("request:undeclared-entries-change-the-result", json!({"request": base.to_string().chars().take(2500).collect::<String>(), "padded_with": n_junk, "plain_keys": a.keys().collect::<Vec<_>>(), "padded_keys": b.keys().collect::<Vec<_>>(),
+                            "differing": a.iter().filter(|(k, v)| !b.get(*k).map(|w| arg_eq(v, w)).unwrap_or(false)).map(|(k, v)| json!({"key": k, "plain": format!("{v:?}").chars().take(120).collect::<String>(), "padded": format!("{:?}", b.get(k)).chars().take(120).collect::<String>()})).collect::<Vec<_>>()}));
+                    }
+                }
+                (Ok(Err(_)), Ok(Err(_))) => {}
+                (Ok(a), Ok(b)) => ctx.violation("request:undeclared-entries-change-the-outcome", json!({"request": base.to_string().chars().take(2500).collect::<String>(), "plain_ok": a.is_ok(), "padded_ok": b.is_ok()})),
+                (Err(p), _) | (_, Err(p)) => ctx.violation(format!("request-{}", p.signature()), json!({"request": base.to_string().chars().take(2500).collect::<String>(), "panic": p.message})),
+            }
+        }
         ctx.nontrivial(fnv64(doc.to_string().as_bytes()));
         if idx % 1999 == 0 {
             ctx.sample(|| json!({"request_prefix": doc.to_string().chars().take(500).collect::<String>()}));
@@ -464,7 +514,7 @@ impl Property for C16 {
         "C16"
     }
     fn rule(&self) -> String {
-        "coercions: for each argument type (Int, Bool, Bytes, Address, UtxoRef, Undefined) a random value v (ints from the i128 boundary set, byte strings of 0..100 bytes, every Shelley address kind, refs with index up to u32::MAX) and each admissible encoding e (decimal string, JSON number below 2^64, 0x + 32 hex digits two's complement; true/false, 0/1, \"true\"/\"false\"; hex with and without 0x in either case, {content|bytecode|payload, contentType|encoding: hex|base64}; bech32 / hex; txid#index): from_json(e(v), type) = v; per type 4..7 ill-formed shapes must be refused; random JSON against every type must not panic. requests: templates lowered from generated programs (declared types known) or random IR trees, declared parameters split between `args` and `env`, some missing, undeclared extras, envelopes intact or corrupted in content / encoding / version (10 variants), or a random JSON document: serde_json::from_value::<ResolveParams> + parse_resolve_request must return Ok or Err and, when Ok, the argument map must equal the declared subset of args + env coerced by the declared types; one request in five carries an ill-formed value for a declared parameter (under args or env) and must be refused. Non-trivial: every case; distinct = distinct JSON documents.".into()
+        "coercions: for each argument type (Int, Bool, Bytes, Address, UtxoRef, Undefined) a random value v (ints from the i128 boundary set, byte strings of 0..100 bytes, every Shelley address kind, refs with index up to u32::MAX) and each admissible encoding e (decimal string, JSON number below 2^64, 0x + 32 hex digits two's complement; true/false, 0/1, \"true\"/\"false\"; hex with and without 0x in either case, {content|bytecode|payload, contentType|encoding: hex|base64}; bech32 / hex; txid#index): from_json(e(v), type) = v; per type 4..7 ill-formed shapes must be refused; random JSON against every type must not panic. requests: templates lowered from generated programs (declared types known) or random IR trees, declared parameters split between `args` and `env`, some missing, undeclared extras, envelopes intact or corrupted in content / encoding / version (10 variants), or a random JSON document: serde_json::from_value::<ResolveParams> + parse_resolve_request must return Ok or Err and, when Ok, the argument map must equal the declared subset of args + env coerced by the declared types; one request in five carries an ill-formed value for a declared parameter (under args or env) and must be refused; metamorphic: the same request padded with 30..45 undeclared entries (and, half of the time, with one declared parameter present in both maps) must be accepted / refused alike and hand over the same argument map. Non-trivial: every case; distinct = distinct JSON documents.".into()
     }
     fn assumptions(&self) -> Vec<String> {
         vec![
@@ -481,7 +531,7 @@ impl Property for C16 {
         }
     }
     fn required_features(&self, _tier: Tier) -> Vec<String> {
-        ["encoding/Int:0x-16-bytes-be", "encoding/Int:json-number", "encoding/Bytes:envelope-base64", "encoding/Address:bech32", "encoding/UtxoRef:txid#index", "requests/ok", "requests/err", "requests/param-via-env", "requests/undeclared-extra", "requests/corrupted-envelope", "requests/ill-formed-value-via-env", "requests/ill-formed-value-via-args"]
+        ["encoding/Int:0x-16-bytes-be", "encoding/Int:json-number", "encoding/Bytes:envelope-base64", "encoding/Address:bech32", "encoding/UtxoRef:txid#index", "requests/ok", "requests/err", "requests/param-via-env", "requests/undeclared-extra", "requests/corrupted-envelope", "requests/ill-formed-value-via-env", "requests/ill-formed-value-via-args", "requests/metamorphic-padded", "requests/metamorphic-key-in-both-maps"]
             .iter()
             .map(|s| s.to_string())
             .collect()
